@@ -43,7 +43,7 @@ PROPS = {
     "C01": {
         "title": "Message round-trip fidelity across every API, role, buffer size and chunking",
         "level": "exploration",
-        "rule": "rapid-generated (writer cfg, reader cfg, write program over all write APIs incl. invalid requests and interleaved control, transport chunking, read program over all read APIs); executed writer->wire->reader of the opposite role; oracle = sent message list (types, bytes, order, count) + control payloads seen by handlers. Non-trivial = >=1 data message and (message larger than the write buffer, or split writes, or interleaved control, or compression negotiated+enabled, or chunked transport reads); distinct = distinct FNV-64 of the canonical JSON of the case. part interleaved-readers: 2-3 connections of one process (the flate readers/writers come from process-wide pools) read their own conformant streams with their reads interleaved by a generated schedule (open next / read n bytes / read to end / abandon); every connection must deliver exactly its own messages.",
+        "rule": "rapid-generated (writer cfg, reader cfg, write program over all write APIs incl. invalid requests and interleaved control, transport chunking, read program over all read APIs); executed writer->wire->reader of the opposite role; oracle = sent message list (types, bytes, order, count) + control payloads seen by handlers. Write programs also change compression settings while a message writer is open or left open (they must only affect later messages), call WriteJSON with a value encoding/json refuses (must fail; at most an empty text message may reach the wire), and the reader's transport may return its last bytes together with io.EOF. Non-trivial = >=1 data message and (message larger than the write buffer, or split writes, or interleaved control, or compression negotiated+enabled, or chunked transport reads); distinct = distinct FNV-64 of the canonical JSON of the case. part interleaved-readers: 2-3 connections of one process (the flate readers/writers come from process-wide pools) read their own conformant streams with their reads interleaved by a generated schedule (open next / read n bytes / read to end / abandon); every connection must deliver exactly its own messages.",
         "assumptions": TRUST + ["message sizes are sampled up to ~300 KB (boundary biased), not unbounded"],
         "level_text": "Bounded random exploration: tens of thousands of generated (configuration, write program, chunking, read program) cases per run, boundary-biased, judged against the list of messages the program sent. Exploration is the right level because the property quantifies over unbounded inputs and programs; nothing finite enumerates them.",
         "level_note": "Oracle is the harness's own record of what it asked the API to send; the reader under test is the library's, so symmetric writer/reader mistakes are left to C02/C03 (independent codec).",
@@ -63,7 +63,7 @@ PROPS = {
     "C03": {
         "title": "The reader decodes any conformant peer stream, however fragmented or read",
         "level": "exploration",
-        "rule": "streams are generated by the independent encoder wsref (1-6 messages, 0-8 fragments incl. empty ones, 7/16/64-bit lengths at the thresholds, per-frame mask keys incl. 00000000/ffffffff/payload-equal, ping/pong at any frame boundary, optional close; compressed messages produced by independent deflate producers: compress/flate at every level with sync flushes, hand-written stored blocks, hand-written fixed-Huffman blocks with matches, BFINAL form) and read by generated read programs (ReadMessage, NextReader+sized reads incl. 0 and >= bufio size, bufio/ReadAll wrappers, ReadJSON, JoinMessages, abandonment) under generated transport chunkings; oracle = the encoded message list (reference model) and the control frames in wire order. Non-trivial = a message with >=2 frames, or a control frame between fragments, or a compressed message, or an abandoned message, or a chunked transport. part mask-carry-sweep: exhaustive enumeration (113652 cells) of {reader role} x message length 0..40 x first-fragment length 0..N x application read size {1,2,3,4,5,7,8,9,16,17,64} x transport chunk {as-is,1,3} x {ping between the fragments or not}, every cell judged by the same oracle. part interleaved-readers: as in C01 - several connections reading compressed and uncompressed streams with interleaved reads; each must decode its own stream.",
+        "rule": "streams are generated by the independent encoder wsref (1-6 messages, 0-8 fragments incl. empty ones, 7/16/64-bit lengths at the thresholds, per-frame mask keys incl. 00000000/ffffffff/payload-equal, ping/pong at any frame boundary, optional close; compressed messages produced by independent deflate producers: compress/flate at every level with sync flushes, hand-written stored blocks, hand-written fixed-Huffman blocks with matches, BFINAL form) (the transport may return its last bytes together with io.EOF) and read by generated read programs (ReadMessage, NextReader+sized reads incl. 0 and >= bufio size, bufio/ReadAll wrappers, ReadJSON, JoinMessages, abandonment) under generated transport chunkings; oracle = the encoded message list (reference model) and the control frames in wire order. Non-trivial = a message with >=2 frames, or a control frame between fragments, or a compressed message, or an abandoned message, or a chunked transport. part mask-carry-sweep: exhaustive enumeration (113652 cells) of {reader role} x message length 0..40 x first-fragment length 0..N x application read size {1,2,3,4,5,7,8,9,16,17,64} x transport chunk {as-is,1,3} x {ping between the fragments or not}, every cell judged by the same oracle. part interleaved-readers: as in C01 - several connections reading compressed and uncompressed streams with interleaved reads; each must decode its own stream.",
         "assumptions": TRUST + ["mask keys and deflaters are sampled (special keys and four producer families), not all 2^32 keys"],
         "level_text": "Bounded random exploration of conformant streams x read programs x chunkings against a reference model of what the stream encodes; the encoder and the deflate producers are independent of the library.",
         "level_note": "Reference encoder/deflaters in harness/wsref, self-tested on RFC byte vectors; ReadJSON is judged differentially against encoding/json on the true payload.",
@@ -96,7 +96,7 @@ PROPS = {
     "C06": {
         "title": "Read limit is exact, history-independent and bounds memory",
         "level": "exploration",
-        "rule": "rapid-generated (limit L in 1..300 / 125 / 126 / 1024 / 4096 / 65535 / 65536 / 10^6; 0-4 within-limit messages of wire size L, L-1, small or random, any fragmentation, pings in between, compressed or not, each read fully / partly / not at all; then optionally one over-limit message whose running sum of claimed frame lengths crosses L at frame 0..3 with a claimed length of L+1-sum, 2L, 2^31, 2^63-1 (overflowing sums) or a top-bit length, the crossing frame's payload present / partly present / absent with the transport reporting a distinctive error). Oracle: every within-limit message that is read is delivered in full; the over-limit read fails with ErrReadLimit (also when no payload byte is available), delivers <= L bytes which are a prefix of the earlier frames, later reads fail, pongs owed + exactly one close 1009 are written (optional for overflow/top-bit), and heap allocation while receiving stays below 8 MiB + 8 x bytes received. Non-trivial = a message of wire size L or L-1 after an abandoned multi-frame predecessor, or an over-limit message with L+1 / overflow / top-bit.",
+        "rule": "rapid-generated (limit L in 1..300 / 125 / 126 / 1024 / 4096 / 65535 / 65536 / 10^6; 0-4 within-limit messages of wire size L, L-1, small or random, any fragmentation, pings in between, compressed or not, each read fully / partly / not at all; then optionally one over-limit message whose running sum of claimed frame lengths crosses L at frame 0..3 with a claimed length of L+1-sum, 2L, 2^31, 2^63-1 (overflowing sums) or a top-bit length, the crossing frame's payload present / partly present / absent with the transport reporting a distinctive error). Oracle: every within-limit message that is read is delivered in full; the over-limit read fails with ErrReadLimit (also when no payload byte is available), delivers <= L bytes which are a prefix of the earlier frames, later reads fail, pongs owed + exactly one close 1009 are written (optional for overflow/top-bit), and heap allocation while receiving stays below 8 MiB + 8 x bytes received - also for a frame whose claim (2^27..2^30) is WITHIN a raised limit of 2^40 but of which only a few bytes exist, read through ReadMessage or NextReader. Non-trivial = a message of wire size L or L-1 after an abandoned multi-frame predecessor, or an over-limit message with L+1 / overflow / top-bit.",
         "assumptions": TRUST + ["memory is measured process-wide (runtime/metrics /gc/heap/allocs:bytes) with a generous constant, so only allocation scaling with the claimed length is detected"],
         "level_text": "Bounded random exploration over limits, histories and 64-bit length corners with a reference model of which messages are within the limit.",
         "level_note": "Streams come from the independent encoder (claimed lengths are written verbatim into hostile headers).",
@@ -106,7 +106,7 @@ PROPS = {
     "C08": {
         "title": "Control frames: handlers see each frame once; ping answered, close echoed",
         "level": "exploration",
-        "rule": "rapid-generated conformant streams with emphasised control traffic (0-5 ping/pong per message at any fragment boundary incl. back to back, payloads 0..125 boundary-biased, close with must-accept codes and UTF-8 reasons up to 123 bytes or empty body) x both roles x handler modes {default, custom, failing at occurrence k} x read programs with abandonment; oracle: handler log == control frames in wire order, each once, exact payload/code; each handler runs while the application is on the right message and, for uncompressed messages read through NextReader, after exactly the bytes that precede the frame; default handlers => pongs with identical payload in order then one close with the same status (empty for empty), reads fail with CloseError{code,text} permanently; a handler error is returned by the read in progress and by every later read, and nothing after it is handled. Non-trivial = control frame between fragments, or 125-byte payload, or close with reason, or handler error.",
+        "rule": "rapid-generated conformant streams with emphasised control traffic (0-5 ping/pong per message at any fragment boundary incl. back to back, payloads 0..125 boundary-biased, close with must-accept codes and UTF-8 reasons up to 123 bytes or empty body) x both roles x handler modes {default, custom, failing at occurrence k} x read programs with abandonment; oracle: handler log == control frames in wire order, each once, exact payload/code; each handler runs while the application is on the right message and, for uncompressed messages read through NextReader, after exactly the bytes that precede the frame; default handlers => pongs with identical payload in order then one close with the same status (empty for empty), reads fail with CloseError{code,text} permanently; a handler error is returned by the read in progress and by every later read, and nothing after it is handled; when the application has already sent its own close frame (locally initiated closing handshake) nothing more is written but the frames still reach the handlers and reads still end with the CloseError of the received close. Close reasons include U+FFFD, U+FFFE, U+10FFFF, U+E000, NUL and DEL. Non-trivial = control frame between fragments, or 125-byte payload, or close with reason, or handler error.",
         "assumptions": TRUST + ["for compressed messages handler/data order is asserted at message granularity (flate read-ahead)"],
         "level_text": "Bounded random exploration of control-frame placements and payloads against the wire-order model.",
         "level_note": "Write-back bytes are decoded by the independent decoder.",
@@ -116,7 +116,7 @@ PROPS = {
     "C07": {
         "title": "Untrusted network input never panics, hangs or allocates out of proportion",
         "level": "exploration",
-        "rule": "four entry points: (frames) byte strings - raw, or structured mutations (bit flips, truncation, extreme 64-bit lengths, hostile constants, spliced control headers, duplicated/deleted slices) of conformant streams from the independent encoder - fed to a Conn of either role, with/without compression and read limit, drained with NextReader+Read until the first error; (dialreply) byte strings / mutated reply templates as the server's reply to Dial; (proxyreply) the same as a proxy's CONNECT reply followed by a valid 101; (headers) generated values (pool of hostile token/quoted-string/extension strings, mutations, raw bytes) for Connection, Upgrade, Sec-WebSocket-Version/-Key/-Protocol/-Extensions, Origin and Host passed to Upgrade, Subprotocols and IsWebSocketUpgrade both directly and through http.ReadRequest. Oracle: no panic, every call returns a value xor an error, the drain loop needs <= len/2+8 iterations, bytes delivered <= 1100 x input, heap allocation <= 16 MiB + 2 KiB x input, a 120 s watchdog reports a call that never returns. Quick = rapid generators; thorough adds four native go-fuzz campaigns (coverage guided, seeded with valid streams/replies and hostile constants). Non-trivial = the input reached protocol logic (a frame was accepted or answered / http.ReadResponse succeeded / CONNECT was parsed / net/http accepted the header values).",
+        "rule": "four entry points: (frames) byte strings - raw, or structured mutations (bit flips, truncation, extreme 64-bit lengths, hostile constants, spliced control headers, duplicated/deleted slices) of conformant streams from the independent encoder - fed to a Conn of either role, with/without compression and read limit - for servers optionally glued to the handshake (first k bytes already in the hijacked bufio.Reader, ReadBufferSize 0..512) - and drained with NextReader+Read or with ReadMessage until the first error; a generator class appends a header claiming 2^16..2^64-1 bytes to a conformant prefix; (dialreply) byte strings / mutated reply templates as the server's reply to Dial; (proxyreply) the same as a proxy's CONNECT reply followed by a valid 101; (headers) generated values (pool of hostile token/quoted-string/extension strings, key-shaped strings around the 24-character/16-byte boundary, mutations, raw bytes) for Connection, Upgrade, Sec-WebSocket-Version/-Key/-Protocol/-Extensions, Origin and Host passed to Upgrade, Subprotocols and IsWebSocketUpgrade both directly and through http.ReadRequest. Oracle: no panic, every call returns a value xor an error, the drain loop needs <= len/2+8 iterations, bytes delivered <= 1100 x input, heap allocation <= 16 MiB + 2 KiB x input, a 120 s watchdog reports a call that never returns. Quick = rapid generators; thorough adds four native go-fuzz campaigns (coverage guided, seeded with valid streams/replies and hostile constants). Non-trivial = the input reached protocol logic (a frame was accepted or answered / http.ReadResponse succeeded / CONNECT was parsed / net/http accepted the header values).",
         "assumptions": TRUST + ["decompression expansion into the application's buffer is inherent to RFC 7692 and not counted; the harness drains into a fixed buffer", "the documented panic after 1000 reads on a failed connection is never provoked (3 extra reads)"],
         "level_text": "Fuzzing / random exploration: evidence of absence of crashes over generated and coverage-guided inputs, never a proof.",
         "level_note": "Transports are scripted; watchdog is wall-clock (120 s for cases that take < 10 ms).",
@@ -177,7 +177,7 @@ PROPS = {
     "C12": {
         "title": "Server handshake: upgrade iff request is a valid opening handshake; correct 101",
         "level": "exploration",
-        "rule": "requests are generated from the handshake grammar as raw bytes (method; Connection/Upgrade token lists over 1-2 lines with arbitrary OWS, case variants, extra tokens and near-miss tokens such as websockets/xupgrade/upgrade2; version values and lists; keys = base64 of 0..32 bytes, bad alphabet, wrong padding, missing, doubled; own/foreign/absent origin with default/allow/deny policy; subprotocol offers; 18 extension offers incl. parameters, quoted strings, near-miss names) in three modes (all elements valid / exactly one faulty element / free mix), parsed by http.ReadRequest, and given to Upgrade with generated Upgrader settings (Subprotocols nil/empty/lists, EnableCompression, buffers, pool) and responseHeader maps whose values are arbitrary bytes incl. CR, LF, NUL. An independent classifier (RFC 6455 4.2.1, RFC 7230 list syntax) says valid / invalid(faults) / unspecified. valid => Conn returned, hijacked once, and the bytes written are exactly one response accepted by a strict parser (CRLF only, no bare CR/LF): 101, Upgrade: websocket, Connection: Upgrade, Accept = independent SHA-1 digest of the key, subprotocol in offers AND Subprotocols (and present when they intersect), extension announcement only if enabled AND offered, header-name multiset == protocol headers + application headers (no injected line), nothing after the blank line. invalid => HandshakeError, never hijacked, status >= 400 (403 when origin is the only fault, 426 + Upgrade header when the Upgrade token is the only fault), nothing written to the raw connection. Non-trivial = valid request with multi-token lists or several lines, invalid request with exactly one fault, response header values with control bytes.",
+        "rule": "requests are generated from the handshake grammar as raw bytes (method; Connection/Upgrade token lists over 1-2 lines with arbitrary OWS, case variants, extra tokens and near-miss tokens such as websockets/xupgrade/upgrade2; version values and lists; keys = base64 of 0..32 bytes, bad alphabet, wrong padding, missing, doubled; own/foreign/absent origin with default/allow/deny policy; subprotocol offers; 22 extension offers incl. parameters, quoted strings with escaped quotes that contain the extension name, near-miss names) in three modes (all elements valid / exactly one faulty element / free mix), parsed by http.ReadRequest, and given to Upgrade with generated Upgrader settings (Subprotocols nil/empty/lists, EnableCompression, buffers, pool) and responseHeader maps whose values are arbitrary bytes incl. CR, LF, NUL. An independent classifier (RFC 6455 4.2.1, RFC 7230 list syntax) says valid / invalid(faults) / unspecified. valid => Conn returned, hijacked once, and the bytes written are exactly one response accepted by a strict parser (CRLF only, no bare CR/LF): 101, Upgrade: websocket, Connection: Upgrade, Accept = independent SHA-1 digest of the key, subprotocol in offers AND Subprotocols (and present when they intersect), extension announcement only if enabled AND offered (never when the name occurs only inside a quoted-string), header-name multiset == protocol headers + application headers (no injected line), nothing after the blank line. invalid => HandshakeError, never hijacked, connection not closed (it belongs to net/http), status >= 400 (403 when origin is the only fault, 426 + Upgrade header when the Upgrade token is the only fault), nothing written to the raw connection. Non-trivial = valid request with multi-token lists or several lines, invalid request with exactly one fault, response header values with control bytes.",
         "assumptions": TRUST + ["unspecified zones (empty list elements, non-token junk, version lists containing 13, several key/origin/protocol lines, non-canonical base64) are only checked for consistency"],
         "level_text": "Bounded random exploration of the request grammar and Upgrader settings against an independent classifier and a strict response parser.",
         "level_note": "net/http's request parser is the trusted front end (requests it refuses are counted and discarded).",
@@ -207,8 +207,8 @@ PROPS = {
     "C15": {
         "title": "Both endpoints always agree on whether compression is in use",
         "level": "exploration",
-        "rule": "three legs. pair: a real Dialer and a real Upgrader are connected through scripted transports (the Upgrader runs on the request bytes the Dialer wrote; the client reads the 101 bytes the server wrote) for all 4 EnableCompression combinations; 1-6 messages of generated sizes flow in both directions with EnableWriteCompression / SetCompressionLevel(-2..9) changes on the sender before a message and receivers that sometimes read only a prefix. server: Upgrader against a scripted client with 18 extension offers (absent, parameters, quoted strings, other extensions first, several lines, near-miss names, malformed). client: Dialer against a scripted 101 with 16 announcement variants (none, each no_context_takeover parameter missing, extra parameters, other extensions, near-miss names). Observable 'compresses' = RSV1 on a data frame (independent decoder + RFC 7692 inflate); 'accepts' = a scripted RSV1 message (independent deflater) is decoded rather than failing the connection. Oracle: every message is received intact by the other side under every toggle history; RSV1 appears only if the 101 announced permessage-deflate with both parameters, which happens only if both sides enabled it (server: iff enabled and cleanly offered); an announcement lacking a parameter makes Dial fail; scripted RSV1 messages are accepted iff negotiated, uncompressed ones always. Non-trivial = off-diagonal settings, offers/announcements given, or >=1 toggle; the fraction of cases with RSV1 observed is reported.",
-        "assumptions": TRUST + ["an unsolicited announcement to a client that did not offer, and malformed offers, are unspecified"],
+        "rule": "three legs. pair: a real Dialer and a real Upgrader are connected through scripted transports (the Upgrader runs on the request bytes the Dialer wrote; the client reads the 101 bytes the server wrote) for all 4 EnableCompression combinations; 1-6 messages of generated sizes flow in both directions with EnableWriteCompression / SetCompressionLevel(-2..9) changes on the sender before a message or in the middle of a message written through NextWriter (the open message keeps its framing), and receivers that sometimes read only a prefix. server: Upgrader against a scripted client with 18 extension offers (absent, parameters, quoted strings, other extensions first, several lines, near-miss names, malformed). client: Dialer against a scripted 101 with 16 announcement variants (none, each no_context_takeover parameter missing, extra parameters, other extensions, near-miss names). Observable 'compresses' = RSV1 on a data frame (independent decoder + RFC 7692 inflate); 'accepts' = a scripted RSV1 message (independent deflater) is decoded rather than failing the connection. Oracle: every message is received intact by the other side under every toggle history; RSV1 appears only if the 101 announced permessage-deflate with both parameters, which happens only if both sides enabled it (server: iff enabled and cleanly offered); an announcement lacking a parameter makes Dial fail; scripted RSV1 messages are accepted iff negotiated, uncompressed ones always. Non-trivial = off-diagonal settings, offers/announcements given, or >=1 toggle; the fraction of cases with RSV1 observed is reported.",
+        "assumptions": TRUST + ["malformed offers are unspecified except that text inside a quoted-string is never an extension name; for an unsolicited complete announcement the client may refuse the handshake but, if Dial succeeds, must accept compressed messages (agreement)"],
         "level_text": "Bounded random exploration of the configuration matrix, offer/announcement grammars and toggle histories with an independent codec as observer.",
         "level_note": "Compression is observed on the wire, not through library state.",
         "technique": "property-based testing (rapid): real Dialer/Upgrader pairs plus scripted peers, independent-codec oracle",
@@ -217,7 +217,7 @@ PROPS = {
     "C17": {
         "title": "No bytes are lost or reordered at the handshake boundary",
         "level": "fault_enumeration",
-        "rule": "a rapid-generated conformant stream S (C03 generator: fragmentation, control frames, compression, close) is glued to the handshake and EVERY split is tried. Server: for every k in 0..min(h, len S) the first k bytes sit in the hijacked bufio.Reader of size h in {16,64,128,255,256,257,512,4096,8192} and the rest arrives from the socket under a generated chunking, with Upgrader.ReadBufferSize in {0,1,64,255,256,257,1024} - this selects the three code paths reuse-hijacked-reader / wrap-buffered-bytes / fresh-reader, reported separately. Client: the transport delivers '101 response || S' with the first read returning k bytes for every k in 1..len(response)+len(S) and the rest under a generated chunking, ReadBufferSize in {0,1,64,125,126,300,4096}. Oracle: the messages read from the returned Conn (generated read program) equal the encoded ones, complete and in order, and a glued close frame is reported. Non-trivial = a split strictly inside S.",
+        "rule": "a rapid-generated conformant stream S (C03 generator: fragmentation, control frames, compression, close) is glued to the handshake and EVERY split is tried. Server: for every k in 0..min(h, len S) the first k bytes sit in the hijacked bufio.Reader of size h in {16,64,128,255,256,257,512,4096,8192} and the rest arrives from the socket under a generated chunking, with Upgrader.ReadBufferSize in {0,1,64,255,256,257,1024} - this selects the three code paths reuse-hijacked-reader / wrap-buffered-bytes / fresh-reader, reported separately. Client: the transport delivers '101 response || S' with the first read returning k bytes for every k in 1..len(response)+len(S) and the rest under a generated chunking, ReadBufferSize in {0,1,64,125,126,300,4096}; optionally a second connection is dialed (its own frames glued to its 101) after the first Dial returned and before the first connection is read, and each must deliver its own messages. The transport may return its last bytes together with io.EOF. Oracle: the messages read from the returned Conn (generated read program) equal the encoded ones, complete and in order, and a glued close frame is reported. Non-trivial = a split strictly inside S.",
         "assumptions": TRUST,
         "level_text": "Every split point of each generated stream is enumerated (exhaustive per stream and buffer combination); streams and buffer sizes are sampled. The split point is the injected condition, hence fault_enumeration.",
         "level_note": "Reference model from the independent encoder.",
@@ -227,7 +227,7 @@ PROPS = {
     "C18": {
         "title": "Proxy tunnelling and TLS are applied on every dial path",
         "level": "exploration",
-        "rule": "part matrix: EXHAUSTIVE enumeration of {no proxy, http, https, socks5} x {ws, wss} x {NetDial, NetDialContext, NetDialTLSContext each set/unset} x {no credentials, user, user:password} x {backend certificate valid for the host / for another host / untrusted CA} = 576 cells, two URL hosts per cell dialed on one Dialer (names, IPv4/IPv6 literals, explicit and default ports); in the 117 cells where no custom dial function applies the library's default net.Dialer makes the first hop to a loopback listener served by the same in-process peers (counted as skipped_no_loopback only if 127.0.0.1 cannot be listened on). All peers are in-process goroutines behind an instrumented in-memory pipe: HTTP CONNECT proxy (optionally behind TLS), RFC 1928/1929 SOCKS5 server, TLS backend with an in-process CA, WebSocket backend echoing through the independent codec. An independent table derived from the Dialer documentation gives per cell: which custom dial function makes the first hop and to which address (default ports 80/443/1080), exactly one CONNECT for host:port (80/443 by default) with Basic Proxy-Authorization iff a password is present, the SOCKS5 target and username/password sub-negotiation, SNI = URL host, the backend receives the upgrade request only inside a verified TLS session for wss (wrong/untrusted certificate or nil TLSClientConfig => Dial fails and the backend sees no HTTP), a custom NetDialTLSContext is trusted, success cells round-trip. part hosts-and-replies: rapid-generated cells with 1-3 hosts, escaped credentials, proxy hosts with default ports and 13 refusal replies (407 with/without reason phrase, 2xx other than 200, 1xx, 3xx, 5xx, HTTP/1.0): every non-200 reply aborts Dial with an error and nothing more is sent. Non-trivial = cells with a proxy or TLS.",
+        "rule": "part matrix: EXHAUSTIVE enumeration of {no proxy, http, https, socks5} x {ws, wss} x {NetDial, NetDialContext, NetDialTLSContext each set/unset} x {no credentials, user, user:password whose base64 contains + and /} x {backend certificate valid for the host / for another host / untrusted CA} = 576 cells, two URL hosts per cell dialed on one Dialer (names, IPv4/IPv6 literals, explicit and default ports); in the 117 cells where no custom dial function applies the library's default net.Dialer makes the first hop to a loopback listener served by the same in-process peers (counted as skipped_no_loopback only if 127.0.0.1 cannot be listened on). All peers are in-process goroutines behind an instrumented in-memory pipe: HTTP CONNECT proxy (optionally behind TLS), RFC 1928/1929 SOCKS5 server, TLS backend with an in-process CA, WebSocket backend echoing through the independent codec. An independent table derived from the Dialer documentation gives per cell: which custom dial function makes the first hop and to which address (default ports 80/443/1080), exactly one CONNECT for host:port (80/443 by default) with Basic Proxy-Authorization iff a password is present, the SOCKS5 target and username/password sub-negotiation, SNI = URL host, the backend receives the upgrade request only inside a verified TLS session for wss (wrong/untrusted certificate or nil TLSClientConfig => Dial fails and the backend sees no HTTP), a custom NetDialTLSContext is trusted, success cells round-trip. part hosts-and-replies: rapid-generated cells with 1-3 hosts, escaped and non-ASCII credentials, proxy hosts with default ports and 13 refusal replies (407 with/without reason phrase, 2xx other than 200, 1xx, 3xx, 5xx, HTTP/1.0): every non-200 reply aborts Dial with an error and nothing more is sent. Non-trivial = cells with a proxy or TLS.",
         "exhaustive_quick": True,
         "exhaustive_thorough": True,
         "assumptions": TRUST + ["real networks (DNS, routed sockets, environment-derived proxies) are replaced by in-process peers; only the default-dialer cells use a loopback TCP listener", "user-without-password for SOCKS5 is unspecified"],
@@ -239,7 +239,7 @@ PROPS = {
     "C16": {
         "title": "Handshakes clean up on every failure path and leave no deadline on success",
         "level": "fault_enumeration",
-        "rule": "paths {direct ws, direct wss (library TLS), via HTTP CONNECT proxy, via HTTPS proxy (TLS to the proxy), via SOCKS5 - each optionally with a wss backend through the tunnel} and Upgrade (with/without HandshakeTimeout, with bytes pre-buffered in the hijacked reader so the wrapper path is taken, failing Hijack), HandshakeTimeout / context deadline from a generated set incl. none. Peers are in-process goroutines behind an instrumented pipe (CONNECT proxy, SOCKS5, TLS with an in-process CA, WebSocket backend). part handshake-faults: a fault-free run numbers the operations N of the first-hop connection (Read, Write, SetDeadline, SetReadDeadline, SetWriteDeadline, Close); then EVERY index k <= N+1 x fault kind {error, timeout, EOF} is injected (k beyond the run's own N counted as trivial); also negative replies (403 to the upgrade, proxy refusal, wrong certificate). Oracle: on any failure Dial/Upgrade returns (nil, err) and the first-hop connection's Close was called (Upgrade: after a successful hijack); on success the connection is open and replaying the logged deadline calls leaves read and write deadlines cleared; with a limit configured every Read/Write outside library-made TLS ran with a deadline armed no later than the limit. part stall-fake-clock (testing/synctest, go1.26.8): the peer goes silent at a generated stage {accept, proxy reply, SOCKS reply, backend TLS, ws reply}; Dial must return an error no later than the limit on the fake clock (exact) on every path incl. TLS handshakes, with the connection closed. Non-trivial = a fault that fired at operation k; every stall case.",
+        "rule": "paths {direct ws via NetDialContext or NetDial, direct wss (library TLS), direct wss via a trusted NetDialTLSContext, via HTTP CONNECT proxy, via HTTPS proxy (library TLS to the proxy, or NetDialTLSContext), via SOCKS5 - each proxy path optionally with a wss backend through the tunnel} and Upgrade (with/without HandshakeTimeout, with bytes pre-buffered in the hijacked reader so the wrapper path is taken, failing Hijack), HandshakeTimeout / context deadline from a generated set incl. none. Peers are in-process goroutines behind an instrumented pipe (CONNECT proxy, SOCKS5, TLS with an in-process CA, WebSocket backend). part handshake-faults: a fault-free run numbers the operations N of the first-hop connection (Read, Write, SetDeadline, SetReadDeadline, SetWriteDeadline, Close); then EVERY index k <= N+1 x fault kind {error, timeout, EOF} is injected (k beyond the run's own N counted as trivial); also negative replies (403 to the upgrade, 13 proxy refusal replies incl. status lines without reason phrase, wrong certificate). Oracle: on any failure Dial/Upgrade returns (nil, err) and the first-hop connection's Close was called (Upgrade: after a successful hijack); on success the connection is open and replaying the logged deadline calls leaves read and write deadlines cleared; with a limit configured every Read/Write outside library-made TLS ran with a deadline armed no later than the limit. part stall-fake-clock (testing/synctest, go1.26.8): the peer goes silent at a generated stage {accept, proxy reply, SOCKS reply, backend TLS, ws reply}; Dial must return an error no later than the limit on the fake clock (exact) on every path incl. TLS handshakes, with the connection closed. Non-trivial = a fault that fired at operation k; every stall case.",
         "assumptions": TRUST + ["fault kinds are error / timeout / EOF at operation granularity of the first-hop net.Conn; TLS record internals are not faulted separately"],
         "level_text": "Every transport operation of each handshake path is failed in turn with every fault kind (exhaustive per path and setting); settings are sampled. Bounded-wait clause decided on a fake clock.",
         "level_note": "Which operation failed and whether Close was called is taken from the instrumented pipe's own log.",
